@@ -1,0 +1,5 @@
+//go:build !verif
+
+package stackage
+
+func verifPoint(string, *stack) {}
